@@ -218,6 +218,49 @@ class Prefixes(object):
         return (res[0], repr(res[1:])), vs, 1
 
 
+class ReservedWords(object):
+    case_timeout = None
+    name = 'reserved-words-as-tokens'
+    describe = ('every word the lexers reserve (taken from their tables: SMI, SPPI and ASN.1 words, with and without a grammar rule) '
+                'put where a value name, a type name, a SYNTAX and a stray token may stand, in four dialects (strict, SMIv1, relaxed '
+                'SMIv1, strict + noCells): accepted, or refused with the package error on the line of the word')
+
+    DIALECTS = ['smiV2', 'smiV1', 'smiV1Relaxed', {'noCells': True}]
+    FRAMES = ['T-MIB DEFINITIONS ::= BEGIN\n\n%s OBJECT IDENTIFIER ::= { a 1 }\nEND\n',
+              'T-MIB DEFINITIONS ::= BEGIN\n\n\n%s ::= INTEGER\nEND\n',
+              'T-MIB DEFINITIONS ::= BEGIN\nx OBJECT-TYPE\n SYNTAX %s\n MAX-ACCESS read-only STATUS current DESCRIPTION "d" ::= { a 1 }\nEND\n',
+              'T-MIB DEFINITIONS ::= BEGIN\nb OBJECT IDENTIFIER ::= { a 1 }\n\n\n\n%s\nc OBJECT IDENTIFIER ::= { a 2 }\nEND\n']
+    LINES = [3, 4, 3, 6]
+
+    def words(self):
+        from pysmi.lexer.smi import SmiV2Lexer, SupportSmiV1Keywords
+        ws = set(SmiV2Lexer.reserved) | set(getattr(SmiV2Lexer, 'forbidden_words', ()))
+        try:
+            ws |= set(SupportSmiV1Keywords.reserved)
+        except Exception:
+            pass
+        return sorted(w for w in ws if w not in ('MACRO', 'EXPORTS', 'CHOICE', 'END', 'BEGIN'))
+
+    def blocks(self, tier):
+        return [{'d': i} for i in range(len(self.DIALECTS))]
+
+    def cases(self, block, tier):
+        for w in self.words():
+            for f in range(len(self.FRAMES)):
+                yield {'d': block['d'], 'w': w, 'f': f}
+
+    def run_case(self, case):
+        text = self.FRAMES[case['f']] % case['w']
+        d = self.DIALECTS[case['d']]
+        res = run_parse(text, d)
+        sig = 'C11|reserved-word|%s|frame-%d' % (env.dialect_key(d) or 'strict', case['f'])
+        vs = basic(res, text, sig)
+        if not vs and res[0] == 'err' and res[3:] != ('eof',) and res[2] not in (self.LINES[case['f']], self.LINES[case['f']] + 1):
+            # the word itself, or the token after it (when the word is legal where it stands and what follows is not)
+            vs.append(('%s|error-not-on-the-line-of-the-word' % sig, 'text %r -> %r' % (text, res)))
+        return (res[0], repr(res[1:3])), vs, 1
+
+
 class LaterObjects(object):
     case_timeout = None
     name = 'later-objects-of-the-shipped-classes'
@@ -525,4 +568,4 @@ def _shared_cache_directory():
     return SharedCacheDirectory()
 
 
-FAMILIES = [Prefixes(), TokenMutations(), Noise(), Lexical(), LongLiterals(), LaterObjects(), _shared_cache_directory()]
+FAMILIES = [Prefixes(), TokenMutations(), Noise(), Lexical(), LongLiterals(), ReservedWords(), LaterObjects(), _shared_cache_directory()]
